@@ -5,8 +5,11 @@ package interp
 
 import (
 	"encoding/json"
+	"fmt"
 	"go/token"
 	"go/types"
+	"strings"
+	"unicode/utf8"
 
 	"golang.org/x/tools/go/ssa"
 )
@@ -318,4 +321,27 @@ func indexByte(s string, c byte) int {
 		}
 	}
 	return -1
+}
+
+func init() {
+	// k8s.io/apimachinery/pkg/util/rand.String: the random suffix of generated
+	// names. Under the engine: a fresh, deterministic suffix per call.
+	externals["k8s.io/apimachinery/pkg/util/rand.String"] = func(fr *frame, args []value) value {
+		n := int(asInt64(fr.i.concrete(args[0], "rand.String length")))
+		fr.i.randCount++
+		s := fmt.Sprintf("%0*d", n, fr.i.randCount)
+		if len(s) > n {
+			s = s[len(s)-n:]
+		}
+		// the alphabet of the real function has no vowels and no 0/1/3; use
+		// letters that are in it
+		return strings.Map(func(r rune) rune { return rune("bcdfghjklm"[r-'0']) }, s)
+	}
+	externals["unicode/utf8.ValidString"] = func(fr *frame, args []value) value {
+		if s, ok := args[0].(string); ok {
+			return utf8.ValidString(s)
+		}
+		// symbolic strings are assumed to be valid UTF-8 (stated per check)
+		return true
+	}
 }
